@@ -52,7 +52,7 @@ class C16(Prop):
     anchors = ["aioswitcher.api:SwitcherType2Api.control_breeze_device", "aioswitcher.api:SwitcherType2Api._control_breeze_swing_device",
                "aioswitcher.api:SwitcherType2Api._get_breeze_state", "aioswitcher.api.remotes:SwitcherBreezeRemote.build_command",
                "aioswitcher.api.remotes:SwitcherBreezeRemote.build_swing_command"]
-    min_evaluations = {"quick": 4_000, "thorough": 100_000}
+    min_evaluations = {"quick": 20_000, "thorough": 250_000}
     budget_s = {"quick": 60, "thorough": 900}
 
     def selftest(self):
@@ -66,7 +66,7 @@ class C16(Prop):
         await self.rig.close()
 
     def cases(self, tier, seed, shard, nshards):
-        n = {"quick": 96, "thorough": 3_000}[tier]
+        n = {"quick": 480, "thorough": 6_000}[tier]
         for i in range(shard, n, nshards):
             yield {"i": i, "seed": seed}
 
